@@ -3,7 +3,9 @@
 
    VARIABLES
      live      the reactor in memory (a Layout state)
-     files     slot -> abstract file | NoFile          one (cycle, node) group of the HDF5 file per slot
+     files     slot -> abstract file | NoFile          one group of the HDF5 file per slot: a time node (cXXnYY) or a named
+                                                       state point of a time node (cXXnYY<label>, writeToDB(r, statePointName=..));
+                                                       two slots of one time node hold different states
      snap      slot -> the state that was written       (ghost: what the snapshot must reproduce)
      loaded    handle -> state | NoState                reactors returned by Database.load
      src       handle -> <<slot it was loaded from, process that loaded it>>  (<<0, 0>> = none)
@@ -25,7 +27,9 @@
        Grow                   growToFullCore / adding an assembly        -> new nodes with fresh names and serial numbers
      Write(s)           Database.writeToDB(live) at time node s  (Layout(comp=r), Layout.writeToDB, _writeParams)
      WriteRefused(s)    the same call when sorted() raises: nothing may be stored
-     Load(s, h, p)      Database.load(cycle, node, cs, bp) in process p   (Layout(h5group), _initComps, _readParams, _compose, sort);
+     Load(s, h, p)      Database.load(cycle, node, cs, bp, statePointName) in process p -- or one of its other public realisations:
+                        Database.loadReadOnly(cycle, node, statePointName), DatabaseInterface.loadState(cycle, node, timeStepName,
+                        fileName), which must return the state of exactly the slot asked for --   (Layout(h5group), _initComps, _readParams, _compose, sort);
                         every stored parameter is assigned through its property: its definition is flagged in p
      Resave(h, s, p)    Database.writeToDB(loaded[h]) into another file/time node by the process that loaded it: the groups
                         not flagged in p are left out of the file and read back as defaults ("unset")
